@@ -50,14 +50,15 @@ theorem prvKeySum_opsSub (K : CurveOk p C) (keys : List (ℤ × Bool)) :
     prvKeySum (opsSub K) keys = prvKeySum (EC.ops C) keys := by
   unfold prvKeySum
   rw [prvKeySumAux_opsSub]
-  rfl
 
 theorem spInputPoint_opsSub (K : CurveOk p C) (a : ℤ) (tr : Bool) :
     (spInputPoint (opsSub K) a tr).1 = spInputPoint (EC.ops C) a tr := by
   unfold spInputPoint
-  show (if (tr && !(evenY (EC.ops C) ((EC.ops C).mul a C.G))) = true then
-      (opsSub K).neg ((opsSub K).mul a (opsSub K).gen) else (opsSub K).mul a (opsSub K).gen).1 = _
-  split <;> rfl
+  by_cases hc : (tr && !(evenY (EC.ops C) ((EC.ops C).mul a (EC.ops C).gen))) = true
+  · rw [ite_pos' hc, ite_pos' (show (tr && !(evenY (opsSub K) ((opsSub K).mul a (opsSub K).gen))) = true from hc)]
+    rfl
+  · rw [ite_neg' hc, ite_neg' (show ¬ (tr && !(evenY (opsSub K) ((opsSub K).mul a (opsSub K).gen))) = true from hc)]
+    rfl
 
 theorem sumPoints_opsSub (K : CurveOk p C) (keys : List (ℤ × Bool)) :
     (sumPoints (opsSub K) (keys.map fun k => spInputPoint (opsSub K) k.1 k.2)).1 =
@@ -191,5 +192,32 @@ theorem musig2_aggregate_verifies_secp256k1 (hp : Nat.Prime secp256k1_p) (hn : N
       bip340Verify (secpOps hp hn) H ((EC.ops secp256k1).x v.Q.1) msg r sg = true :=
   @musig2_aggregate_verifies_ec secp256k1_p ⟨hp⟩ secp256k1 (secpOk hp hn) secp256k1_h34 H secp_sizes32.1
     secp_sizes32.2 l hl tweaks msg an han v hv hR sigs hs
+
+/-! ## the toy curve: actual runs, nothing assumed -/
+
+def toyH (tag m : Bytes) : Bytes := [UInt8.ofNat ((tag.length + m.foldl (fun a b => a + b.toNat) 0) % 29 + 1)]
+/-- one ordinary input (key 3) and one taproot input (key 5, odd y: negated) -/
+def toyKeys : List (ℤ × Bool) := [(3, false), (5, true)]
+
+theorem toy_ecdh : diffieHellman (EC.ops toyC) (fun b => .ok b) 3 ((EC.ops toyC).mul 5 toyC.G) = .ok [38] := by
+  decide +kernel
+
+/-- … hence, by T5, the other side derives `[38]` too -/
+theorem toy_ecdh_other : diffieHellman (EC.ops toyC) (fun b => .ok b) 5 ((EC.ops toyC).mul 3 toyC.G) = .ok [38] := by
+  rw [← ecdh_symmetric_ec toyOk (by decide)]; exact toy_ecdh
+
+theorem toy_sp_prv : prvKeySum (EC.ops toyC) toyKeys = .ok 8 := by decide +kernel
+theorem toy_sp_pub :
+    pubKeySum (EC.ops toyC) (toyKeys.map fun k => spInputPoint (EC.ops toyC) k.1 k.2) = .ok (32, 40) := by
+  decide +kernel
+theorem toy_sp_hash : inputHash (EC.ops toyC) toyH [1] ((EC.ops toyC).mul 8 toyC.G) = .ok 21 := by decide +kernel
+
+/-- T9 on the toy curve, every hypothesis discharged: the scanner's input hash over the summed public keys is the
+sender's, and so is every tweak -/
+theorem toy_sp_agree : inputHash (EC.ops toyC) toyH [1] (32, 40) = .ok 21 ∧
+    ∀ k, outputTweak (EC.ops toyC) toyH ((EC.ops toyC).mul (21 * 8 % 31) ((EC.ops toyC).mul 7 toyC.G)) k
+      = outputTweak (EC.ops toyC) toyH ((EC.ops toyC).mul 7 ((EC.ops toyC).mul 21 (32, 40))) k :=
+  sp_sender_scanner_agree_ec toyOk (by decide) toyH toyKeys 8 toy_sp_prv (32, 40) toy_sp_pub [1] 21 toy_sp_hash 7
+    (by decide)
 
 end Btc.E2E
